@@ -31,13 +31,41 @@ Definition d_c14_gslb (i : val) : option (list (str * Z)) :=
   | _ => None
   end.
 
+(* op 3: reload-history independence of the balancer.  A, B sub-cluster maps, probes = (key, murmur3.Sum64 key) *)
+Definition d_c14_reload (i : val) : option (list (str * Z) * list (str * Z) * list Z) :=
+  match i with
+  | VL [VZ 3; VZ _; a; b; ps] =>
+      do a' <- d_list (d_pair as_B as_Z) a; do b' <- d_list (d_pair as_B as_Z) b;
+      do ps' <- d_list (d_pair as_B as_Z) ps; Some (a', b', map snd ps')
+  | _ => None
+  end.
+Definition bk_prefix : str := [98; 107; 95].     (* every sub-cluster N has the single backend "bk_N" *)
+Definition v_state (st : list (str * Z) * Z * bool * Z) : val :=
+  let '(s, total, single, av) := st in
+  VL [VL (map (fun e => VL [VB (fst e); VZ (snd e)]) s); VZ total; VZ (if single then 1 else 0); VZ av].
+Definition v_picks (st : list (str * Z) * Z * bool * Z) (hs : list Z) : val :=
+  VL (map (fun h => let n := gslb_pick st h in VL [VB n; VB (bk_prefix ++ n)]) hs).
+Definition v_reload (a b : list (str * Z)) (hs : list Z) : val :=
+  match gslb_fresh b with
+  | None => VErr 2
+  | Some f =>
+      if pos_total a =? 0 then VErr 1
+      else match gslb_after_reload a b with
+           | Some h => VL [v_state f; v_state h; v_picks f hs; v_picks h hs]
+           | None => VErr 2
+           end
+  end.
+
 (* model output: the single summary obtained with the map orders = list orders of the input *)
 Definition run_C14 (i : val) : val :=
   match d_c14 i with
   | Some (fs, ps) => VL [summary (fun l => l) fs ps]
   | None => match d_c14_gslb i with
             | Some conf => VL [v_gslb conf]
-            | None => VErr 0
+            | None => match d_c14_reload i with
+                      | Some (a, b, hs) => VL [v_reload a b hs]
+                      | None => VErr 0
+                      end
             end
   end.
 
@@ -98,9 +126,21 @@ Definition agree_C14 (i o : val) : bool :=
   end.
 
 (* THE PROPERTY: over all loads of the same files exactly one behaviour was observed (and it is not a crash) *)
+(* for op 3 additionally: the state and every routing decision after (load A; reload B) equal those of a fresh load of B *)
 Definition prop_C14 (i o : val) : bool :=
   match o with
-  | VL [x] => match x with VL [VZ (-2)] => false | VL _ => true | _ => false end
+  | VL [x] =>
+      match x with
+      | VL [VZ (-2)] => false
+      | VL l =>
+          match d_c14_reload i, l with
+          | Some _, [sf; sh; pf; ph] => val_eqb sf sh && val_eqb pf ph
+          | Some _, [VZ (-1); VZ _] => true          (* A or B is not a loadable configuration *)
+          | Some _, _ => false
+          | None, _ => true
+          end
+      | _ => false
+      end
   | _ => false
   end.
 Definition kf_C14 (i : val) : Z :=
